@@ -18,9 +18,10 @@ from .. import REPO, VERIF
 ID = "C18"
 LEVEL = "exploration"
 RULE = ("fresh interpreter per PYTHONHASHSEED in 0..15 (quick) / 0..63 (thorough); inside each, the "
-        "6-item battery (documents with 7+ dependency names, duplicate head_content, HTMLTextDocument "
-        "extraction of 5 serialisations with repeats, JSX component, attribute merges, resolution + "
-        "serialisation) is rendered in every permutation of its first 5 (quick: 120) / 6 (thorough: "
+        "7-item battery (escaping of quotes/newlines/metacharacters, documents with 7+ dependency names, "
+        "duplicate head_content, HTMLTextDocument extraction of 5 serialisations with repeats, JSX "
+        "component, attribute merges, resolution + serialisation), started with item (seed mod 7) as "
+        "the very first library action of the process, then rendered in every permutation of its first 5 (quick: 120) / 6 (thorough: "
         "720) items; all ordered pairs of 12 head_content payloads. Non-trivial = (seed, order) "
         "pairs other than the first. 2^32 seeds cannot be enumerated: the seed range is the bound.")
 ASSUMPTIONS = [
@@ -33,7 +34,7 @@ TECHNIQUE = ("exhaustive enumeration of (hash seed in a stated range) x (every o
 
 def run_child(seed, nperm):
     env = dict(os.environ, PYTHONHASHSEED=str(seed), PYTHONDONTWRITEBYTECODE="1", HV_REPO=REPO)
-    p = subprocess.run(["/venv/bin/python", "-m", "hv.c18_child", str(nperm)], cwd=VERIF, env=env,
+    p = subprocess.run(["/venv/bin/python", "-m", "hv.c18_child", str(nperm), str(seed)], cwd=VERIF, env=env,
                        capture_output=True, text=True, timeout=1800)
     if p.returncode != 0:
         return seed, None, p.stderr[-1500:]
